@@ -366,7 +366,7 @@ theorem C36_date_add_diff (n z : Int) (u : DUnit) :
   ⟨date_add_diff_day n z, date_add_diff_week n z, date_add_zero u z (civilOfDays_valid z)⟩
 
 /-! ## kernel-checked witnesses: the documented value on each known finding's witness input (the engine returns something else) -/
-example : absI i64Min = none := by decide                                                             -- F1: engine panics
+example : absI i64Min = none := by decide                                                             -- F1 (fixed by 0d4d092): the engine used to panic
 example : lengthS ['h', 'é', 'l', 'l', 'o'] = 5 ∧ IQE.Engine.FnDev.byteLen ['h', 'é', 'l', 'l', 'o'] = 6 := by decide   -- F2
 example : strpos ['h', 'é', 'l', 'l', 'o'] ['l'] = 3 ∧ IQE.Engine.FnDev.findByte ['l'] ['h', 'é', 'l', 'l', 'o'] 0 = some 3 := by decide  -- F3 (engine 3+1)
 example : substr ['h', 'e', 'l', 'l', 'o'] (-2) none = ['l', 'o'] := by decide                         -- F5: engine ''
@@ -376,7 +376,7 @@ example : hamming ['é'] ['a'] = some 1 ∧ IQE.Engine.FnDev.hammingE ['é'] ['a
 example : caseSimple [.int 1, .int 1, .int 10, .int 30] = some (.int 10) := by decide                  -- F12 (fixed by 2eee94c): the engine used to raise
 example : dayOfWeek 0 = 4 := by decide                                                                 -- F14: engine 5
 example : dateDiff .month 30 31 = 0 := by decide                                                       -- F15: engine 1
-example : shiftLeft 1 64 = some 0 := by decide                                                         -- F16: engine panics
+example : shiftLeft 1 64 = some 0 := by decide                                                         -- F16 (fixed by 2eaee32): the engine used to panic
 example : toBase 35 36 = some ['z'] := by decide                                                       -- F18: engine '35'
 example : translateS ['a', 'b', 'c'] ['b'] [] = ['a', 'c'] := by decide                                 -- F19: engine 'abc'
 example : dateAdd .quarter 1 0 = 90 := by decide                                                       -- F21: engine NULL
